@@ -32,7 +32,8 @@ REQUIRED_MONITORS = ["cell-functional-exact", "facet-functional-exact", "subdoma
                      "mass-matrix-exact", "stiffness-matrix-exact", "load-vector-exact", "mass-sum-is-measure",
                      "copies-agree"]
 REQUIRED_REACH = ["negative-det-cells", "non-affine-cells", "default-order", "facet-subset", "rigid-motion",
-                  "refined-copy", "renumbered-copy", "degree-beyond-strength-skipped"]
+                  "refined-copy", "renumbered-copy", "degree-beyond-strength-skipped",
+                  "equal-size-subdomains-on-one-mesh", "overlapping-tags-union", "overlapping-facet-tags-union"]
 ASSUMPTIONS = ["vertex coordinates are taken as the exact rational values of the doubles stored in the mesh",
                "nodal bases of the exact reference use the nearest small rationals (denominator <= 64) to the "
                "element's tabulated reference nodes"]
@@ -152,11 +153,27 @@ def cell_functionals(ctx, k, kind):
     basis = skfem.CellBasis(mesh, elem()) if default else skfem.CellBasis(mesh, elem(), intorder=n)
     S = np.sort(rng.choice(nt, size=max(1, nt // 3), replace=False)).astype(np.int32)
     tagged = mesh.with_subdomains({"sub": S})
-    bsub = skfem.CellBasis(tagged, elem(), elements="sub", **({} if default else {"intorder": n}))
+    kw = {} if default else {"intorder": n}
+    bsub = skfem.CellBasis(tagged, elem(), elements="sub", **kw)
+    doms = [("whole", basis, range(nt)), ("subdomain", bsub, S)]
+    if nt >= 3:
+        # a second subdomain of the same size but other cells, and the union of two overlapping tags, all on the
+        # same mesh object as the first ("any tagged subdomain")
+        S2 = np.sort(rng.choice(nt, size=S.size, replace=False)).astype(np.int32)
+        if np.array_equal(S2, S):
+            S2 = np.sort((S + 1) % nt).astype(np.int32)
+        tagged = tagged.with_subdomains({"sub": S, "sub2": S2})
+        bsub = skfem.CellBasis(tagged, elem(), elements="sub", **kw)
+        doms[1] = ("subdomain", bsub, S)
+        doms.append(("subdomain", skfem.CellBasis(tagged, elem(), elements="sub2", **kw), S2))
+        doms.append(("subdomain", skfem.CellBasis(tagged, elem(), elements=["sub", "sub2"], **kw), np.union1d(S, S2)))
+        ctx.reached("equal-size-subdomains-on-one-mesh")
+        if np.intersect1d(S, S2).size:
+            ctx.reached("overlapping-tags-union")
     nexp = ctx.scale(4, 8)
     for e in rand_exps(rng, d, max(n, 0), nexp):
         poly = monomial_poly(e)
-        for which, b, cells in (("whole", basis, range(nt)), ("subdomain", bsub, S)):
+        for which, b, cells in doms:
             r = exact_cells(mesh, kind, poly, cells, n)
             if r is None:
                 ctx.drop("jacobian-sign-changes")
@@ -233,10 +250,24 @@ def facet_functionals(ctx, k, kind):
     variants = [("boundary", None)]
     F = np.sort(rng.choice(nf, size=max(1, nf // 3), replace=False)).astype(np.int32)
     variants.append(("subset", F))
+    F2 = np.sort(rng.choice(nf, size=F.size, replace=False)).astype(np.int32)
+    variants.append(("subset", F2))                       # same size, other facets, same mesh object
+    bf = mesh.boundary_facets()
+    if bf.size >= 3:
+        # a list of tags names the union of the tagged sets, overlapping or not
+        A = np.sort(rng.choice(bf, size=max(2, bf.size // 2), replace=False)).astype(np.int32)
+        B = np.union1d(rng.choice(A, size=max(1, A.size // 2), replace=False),
+                       rng.choice(bf, size=1)).astype(np.int32)
+        mesh = mesh.with_boundaries({"a": A, "b": B})
+        variants.append(("tag-list", ["a", "b"]))
+        variants.append(("tag-tuple", ("b", "a", "b")))
     for which, facets in variants:
         fb = skfem.FacetBasis(mesh, elem(), intorder=n) if facets is None else \
             skfem.FacetBasis(mesh, elem(), facets=facets, intorder=n)
         flist = mesh.boundary_facets() if facets is None else facets
+        if which.startswith("tag-"):
+            flist = np.union1d(A, B)
+            ctx.reached("overlapping-facet-tags-union")
         if facets is not None:
             ctx.reached("facet-subset")
         for e in rand_exps(rng, d, n, ctx.scale(3, 6)):
